@@ -95,6 +95,8 @@ pub enum Ev {
     /// perturbation twins evaluated at this instant: 0 fresh-press twin, 1 newest-samples twin, 2 raised-sample twin
     Twin(u8, u32),
     Restart,
+    /// the buffer-size helper called with any sample rate of the documented range (C17)
+    Capacity(u32),
 }
 
 const F_TAP_SHORTER_THAN_CAPTURE: usize = 0;
@@ -471,6 +473,12 @@ impl Engine for RibbonEngine {
             Ev::Twin(kind, arg) => {
                 ex.twin(*kind, *arg, ctx);
             }
+            Ev::Capacity(fs) => {
+                let c = real!(sample_rate_to_capacity(*fs));
+                // 15 ms of capture + 2 ms of lift allowance + 1, by the helper's own documentation
+                let want = (*fs as u64 * 15_000 / 1_000_000 + *fs as u64 * 2_000 / 1_000_000 + 1) as usize;
+                ctx.check(17, "capacity_helper_in_range", c == want, || format!("sample_rate_to_capacity({}) = {}, expected {}", fs, c, want));
+            }
             Ev::Restart => {
                 ctx.fault(F_RESTART);
                 ex.r = make(&ex.cfg);
@@ -524,6 +532,7 @@ impl Engine for RibbonEngine {
             Ev::PollReleased => J::Arr(vec![J::s("just_released")]),
             Ev::Twin(k, a) => J::Arr(vec![J::s("twin"), J::s(["fresh_press", "newest_samples", "raised_sample"][(*k).min(2) as usize]), J::u(*a as u64)]),
             Ev::Restart => J::Arr(vec![J::s("restart")]),
+            Ev::Capacity(fs) => J::Arr(vec![J::s("capacity_helper"), J::u(*fs as u64)]),
         }
     }
     fn ev_parse(j: &J) -> Result<Ev, String> {
@@ -541,6 +550,7 @@ impl Engine for RibbonEngine {
                 ju64(arg(a, 1)?)? as u32,
             ),
             "restart" => Ev::Restart,
+            "capacity_helper" => Ev::Capacity(ju64(arg(a, 0)?)? as u32),
             x => return Err(format!("unknown ribbon event {}", x)),
         })
     }
@@ -662,6 +672,15 @@ fn random_run(rng: &mut Rng, prof: &Profile, sink: &mut Sink<RibbonEngine>) {
     }
     let l = t.exec().l_need();
     let p_poll = *rng.pick(&[0.0, 0.1, 0.4, 0.8]);
+    if prof.chaos {
+        for _ in 0..rng.range(1, 4) {
+            let fs = match rng.below(3) {
+                0 => *rng.pick(&[100u32, 192_000, 191_999, 101, 999, 1000]),
+                _ => rng.range(100, 192_000) as u32,
+            };
+            t.push(Ev::Capacity(fs));
+        }
+    }
     let segs = 3 + rng.usize(if prof.tier == Tier::Thorough { 14 } else { 9 });
     let budget = (l as u64 * 24).max(400);
     for _ in 0..segs {
